@@ -181,7 +181,8 @@ class C08(EHistCheck):
             "optional link and a shared sub-object; Pair/Leaf with object-valued constructor parameters, swapping and fresh sub-objects; Mem, whose constructor "
             "lets `self` escape into the field of a partner object passed in); "
             "model = reference interpreter with records of cells; states de-duplicated on the values of observer expressions that expose "
-            "every field, every identity relation between the named references and the link structure; every transition replayed on the real CLI.")
+            "every field, every identity relation between the named references and the link structure; every transition replayed on the real CLI.  Every class graph is also explored (one level shallower) with all "
+            "variables and operations inside one function body instead of at module level.")
     assumptions = ["objects are never printed (addresses); `==` on objects is rejected by the compiler and is not in the alphabet"]
 
 
